@@ -176,6 +176,7 @@ type Pool struct {
 	Cwd     string
 	Env     []string
 	Binary  string // defaults to os.Executable()
+	Fresh   bool   // a new worker process for every task (history checks need a pristine process)
 
 	Crashes int
 	Hangs   int
@@ -376,6 +377,10 @@ func (p *Pool) Map(sys string, n int, arg func(i int) any, fn func(i int, r Resu
 					mu.Lock()
 					p.Hangs++
 					mu.Unlock()
+				}
+				if p.Fresh && w != nil {
+					w.kill()
+					w = nil
 				}
 				cbmu.Lock()
 				fn(i, res)
